@@ -1,3 +1,4 @@
+#![allow(dead_code)]
 //! Shared pieces of the correspondence harness: one PRNG, token output,
 //! panic capture, run statistics.
 use std::collections::BTreeMap;
@@ -144,4 +145,45 @@ pub struct Args {
 
 pub fn parse_tokens(line: &str) -> Vec<u64> {
     line.split_whitespace().filter_map(|t| t.parse().ok()).collect()
+}
+
+/// Common `main`: `harness-<id> [--seed S] [--n N] [--tier quick|thorough] [--replay FILE] [extra...]`
+/// prints one case line per input on stdout (`<input tokens> <implementation output tokens>`)
+/// and a last line `#stats {json}` with the generator's distribution.
+pub fn harness_main(id: &str, run: fn(&Args, &mut dyn std::io::Write) -> Stats) {
+    use std::io::Write;
+    let argv: Vec<String> = std::env::args().collect();
+    let mut args = Args { seed: 1, n: 1000, tier: "quick".into(), replay: None, extra: vec![] };
+    let mut i = 1;
+    while i < argv.len() {
+        match argv[i].as_str() {
+            "--seed" => {
+                args.seed = argv[i + 1].parse().expect("seed");
+                i += 2;
+            }
+            "--n" => {
+                args.n = argv[i + 1].parse().expect("n");
+                i += 2;
+            }
+            "--tier" => {
+                args.tier = argv[i + 1].clone();
+                i += 2;
+            }
+            "--replay" => {
+                args.replay = Some(argv[i + 1].clone());
+                i += 2;
+            }
+            x => {
+                args.extra.push(x.to_string());
+                i += 1;
+            }
+        }
+    }
+    let _ = id;
+    quiet_panics();
+    let stdout = std::io::stdout();
+    let mut out = std::io::BufWriter::with_capacity(1 << 20, stdout.lock());
+    let stats = run(&args, &mut out);
+    writeln!(out, "#stats {}", stats.to_json()).unwrap();
+    out.flush().unwrap();
 }
